@@ -91,7 +91,9 @@ def build_and_run(ctx, name, cases, nshards=None, prelude="", run=True, max_roun
     ids = [c.id for c in cases]
     if len(set(ids)) != len(ids):
         raise Inconclusive("duplicate case ids in workload " + name)
-    nshards = nshards or min(common.NCPU, max(1, len(cases) // 8))
+    # one shard per core, but never more than ~250 cases in one rustc process: sixteen huge shards compiled at once
+    # were killed by the kernel's OOM killer on a loaded 62 GB machine (that run was INCONCLUSIVE, not a violation)
+    nshards = nshards or min(256, max(min(common.NCPU, max(1, len(cases) // 8)), -(-len(cases) // 250)))
     arts = None
     # package and binary names are unique per (property, tier, workload, repo copy): all generated
     # crates share one target directory, where equally named binaries would overwrite each other
